@@ -428,6 +428,9 @@ MUTANTS += [
 
 # rules added in round 8 (sub-agent changes, unchanged-tree findings D22–D29, and the mechanical mutation sweep bin/mutsweep)
 MUTANTS += [
+    dict(id="c06-tip-condition-strict", prop="C06", file=S, find="            self.height >= activation\n", repl="            self.height > activation\n", expect="R5/condition/at-activation"),
+    dict(id="c17-tip-condition-inverted", prop="C17", file=S, find="            self.height >= activation\n", repl="            self.height <= activation\n", expect="X06.R5/condition/at-activation"),
+    dict(id="c06-tip-condition-flipped-benign", prop="C06", file=S, find="            self.height >= activation\n", repl="            activation <= self.height\n", expect=None),
     dict(id="c09-new-assert-in-seal", prop="C09", file=S, find="        // create the finalized state\n        SealedState(self, action)", repl="        assert!(self.fee_pool.0 >= self.tips.0);\n        // create the finalized state\n        SealedState(self, action)", expect="R1/site/UnsealedState::seal|panic|"),
     dict(id="c06-batch-never-applied", prop="C06", file=S, find="        basis.apply_tx_batch(&transactions)?;\n", repl="", expect="R2/batch-call"),
     dict(id="c07-next-block-keeps-transactions", prop="C07", file=S, find="        new.transactions = Default::default();\n", repl="", expect="R2/transactions/reset"),
